@@ -187,7 +187,7 @@ def run_case(case, rec):
     ctx = dict(case)
     if fam == "generated":
         rng = random.Random(f"{seed}:C10:{case['i']}")
-        rows = gentab.random_table(rng, nmodels=rng.choice([1, 1, 2]), wide=False)
+        rows = gentab.random_table(rng, nmodels=rng.choice([1, 1, 2]), wide=False, hetero=case["i"] % 4 == 1)
         mode = rng.choice(["fits-cif", "fits-pdb", "beyond", "beyond", "beyond"])
         if case["i"] % 3 == 2:
             # residues whose records are not contiguous (conformer blocks, atoms appended after a later residue)
@@ -289,7 +289,12 @@ def run_case(case, rec):
     if src == "PDB":
         df = p2.parse_pdb_atoms(emit.emit_pdb(rows))
     else:
-        df = p2.parse_cif_atoms(emit.emit_cif(rows))
+        # label identifiers that would not fit PDB next to author identifiers that do (or do not): only the
+        # author identifiers are written to PDB, so only they decide
+        wide = fam == "generated" and case["i"] % 2 == 0
+        if wide:
+            ctx["label-ids"] = "wide"
+        df = p2.parse_cif_atoms(emit.emit_cif(rows, label_asym="wide" if wide else "auth"))
     _drive(rec, df, rows, ctx, src)
 
 
